@@ -48,6 +48,46 @@ func violates(t *testing.T, spec syncdrv.ChainSpec, hist []syncdrv.Item, tmp, si
 	return false
 }
 
+
+// daStream runs the DA-ingress scenarios (real RetrieveLoop + SyncLoop on a scripted DA layer, stop at a
+// generated instant, restart, converge).  Oracle only.
+func daStream(t *testing.T, e *vgen.Env, res *vgen.Result, tmp string, crash bool, replay *syncdrv.DAScenario) {
+	var scs []syncdrv.DAScenario
+	if replay != nil {
+		scs = append(scs, *replay)
+	} else {
+		n := 14
+		if e.Tier == "thorough" {
+			n = 120
+		}
+		for c := 0; c < n; c++ {
+			sc := syncdrv.GenDAScenario(syncdrv.CaseRng(e.Seed+977, c))
+			sc.Crash = crash
+			scs = append(scs, sc)
+		}
+	}
+	for _, sc := range scs {
+		c, err := syncdrv.ChainFor(sc.Chain, tmp)
+		if err != nil {
+			t.Fatalf("producing the chain: %v", err)
+		}
+		r := syncdrv.RunDAScenario(t, c, sc, tmp)
+		res.Evaluations++
+		res.Count("da-ingress:scenarios")
+		if r.StoppedAt {
+			res.Count("da-ingress:stopped-right-after-a-commit")
+		}
+		if r.HeightEnd > r.HeightStop {
+			res.Count("da-ingress:progress-after-restart")
+		}
+		scc := sc
+		for _, v := range r.Viol {
+			res.Violations = append(res.Violations, vgen.Violation{Signature: v.Sig, What: v.What, Case: -1,
+				Replay: syncdrv.Replay{Seed: e.Seed, Case: -1, Chain: sc.Chain, DA: &scc}})
+		}
+	}
+}
+
 func TestVerif(t *testing.T) {
 	e := vgen.GetEnv()
 	res := vgen.NewResult("C02", e)
@@ -66,7 +106,11 @@ func TestVerif(t *testing.T) {
 		if err := vgen.LoadReplay(e.Replay, &rp); err != nil {
 			t.Fatal(err)
 		}
-		jobs = append(jobs, job{rp: rp})
+		if rp.DA != nil {
+			daStream(t, e, res, tmp, false, rp.DA)
+		} else {
+			jobs = append(jobs, job{rp: rp})
+		}
 	} else {
 		if os.Getenv("VERIF_NO_CORPUS") == "" {
 			files, _ := filepath.Glob("../corpus/C02/*.json")
@@ -81,6 +125,9 @@ func TestVerif(t *testing.T) {
 			spec, hist := genCase(e.Seed, c, e.Tier)
 			jobs = append(jobs, job{rp: syncdrv.Replay{Seed: e.Seed, Case: c, Chain: spec, History: hist}, gen: true})
 		}
+	}
+	if e.Replay == "" {
+		daStream(t, e, res, tmp, false, nil)
 	}
 	var defs, cases []string
 	defs = append(defs, syncdrv.BadCase)
@@ -133,7 +180,7 @@ func TestVerif(t *testing.T) {
 		}
 	}
 	res.Distinct = len(distinct)
-	res.Rule = "chains of 3..13 blocks (thorough: ..41) from a real aggregator Manager (initial height in {1,2,5,1000}, ~35% empty blocks with runs, 10% of chains repeat a non-empty tx list); history = every header/data event of the chain (25% of histories drop ~8% of events), duplicated 1-3x, order in {sorted, reversed, headers-first, data-first, near-sorted, shuffled}, random DA tags, 0-2 clean restarts (SaveCache + NewManager); non-trivial = at least 4 items and 2 applied blocks; distinct = distinct (chain, history) pairs"
+	res.Rule = "chains of 3..13 blocks (thorough: ..41) from a real aggregator Manager (initial height in {1,2,5,1000}, ~35% empty blocks with runs, 10% of chains repeat a non-empty tx list); history = every header/data event of the chain (25% of histories drop ~8% of events), duplicated 1-3x, order in {sorted, reversed, headers-first, data-first, near-sorted, shuffled}, random DA tags, 0-2 clean restarts (SaveCache + NewManager); non-trivial = at least 4 items and 2 applied blocks; distinct = distinct (chain, history) pairs; plus the DA-ingress scenario stream (real RetrieveLoop + SyncLoop on a scripted DA layer, stop right after a commit, restart, converge; oracle only)"
 	res.Cases = len(cases)
 	path := filepath.Join(e.Out, "cases_C02.v")
 	if err := vgen.WriteCases(path, syncdrv.CoqHeader, defs, "scase", cases, "mismatches"); err != nil {
